@@ -143,8 +143,8 @@ def _progress_sample(pid):
 HANG_RC = -998
 
 
-def run(argv, env=None, stdin=None, timeout=WATCHDOG, rlimits=None, ignore_sigxfsz=False, cwd=None, text=True):
-    """Runs a process with a generous watchdog. rlimits: dict name -> value (soft=hard).
+def run(argv, env=None, stdin=None, timeout=WATCHDOG, rlimits=None, ignore_sigxfsz=False, cwd=None, text=True, user=None):
+    """Runs a process with a generous watchdog. rlimits: dict name -> value (soft=hard). user: (uid, gid) to run as (needs root).
     Two different ways of not finishing are told apart: a process that is still consuming CPU when the watchdog fires is *slow* (timed_out:
     inconclusive for the caller); a process whose whole tree has consumed no CPU at all and has every thread asleep (state S) for three
     samples 5 s apart, after at least 15 s, is *hung* - a deadlock, not a slow machine: it is killed and reported with rc = HANG_RC and a
@@ -161,6 +161,10 @@ def run(argv, env=None, stdin=None, timeout=WATCHDOG, rlimits=None, ignore_sigxf
                 resource.setrlimit(getattr(resource, k), (v, v))
         if ignore_sigxfsz:
             signal.signal(signal.SIGXFSZ, signal.SIG_IGN)
+        if user:
+            os.setgroups([])
+            os.setgid(user[1])
+            os.setuid(user[0])
 
     t0 = time.time()
     if text and isinstance(stdin, str):
@@ -175,7 +179,7 @@ def run(argv, env=None, stdin=None, timeout=WATCHDOG, rlimits=None, ignore_sigxf
         fin.write(stdin)
         fin.seek(0)
     p = subprocess.Popen(argv, env=e, stdin=fin, stdout=subprocess.PIPE, stderr=subprocess.PIPE,
-                         preexec_fn=pre if (rlimits or ignore_sigxfsz) else None, cwd=cwd)
+                         preexec_fn=pre if (rlimits or ignore_sigxfsz or user) else None, cwd=cwd)
     if fin is not None:
         fin.close()
     first, same, last = True, 0, None
